@@ -72,44 +72,76 @@ def check(repo: Repo, rep: Report) -> None:
     # ref_count
     rsub = repo.fn(RC, "ref_count_.ref_count.subscribe")
     rdis = repo.fn(RC, "ref_count_.ref_count.subscribe.dispose")
-    inc = [s for s in sites(rsub) if isinstance(s.node, ast.AugAssign) and u(s.node.target) == "count" and isinstance(s.node.op, ast.Add) and not s.ctx.branch]
+    # roles: counter = the cell incremented on subscribe; own subscription = the local assigned from
+    # <connectable>.subscribe(observer); connection = the variable assigned from <connectable>.connect(...)
+    from ..rules import cell_name, names_augmented
+    def method_call(e, recv_names, attr):
+        return isinstance(e, ast.Call) and isinstance(e.func, ast.Attribute) and e.func.attr == attr and dotted(e.func.value) in recv_names
+    srcs = {rsub.parent.params[0]}
+    cnts = names_augmented(rsub, ast.Add)
+    rep.require(len(cnts) == 1, "ref_count: subscriber counter")
+    cnt = cnts[0]
+    inc = [s for s in sites(rsub) if isinstance(s.node, ast.AugAssign) and cell_name(s.node.target) == cnt and isinstance(s.node.op, ast.Add) and not s.ctx.branch]
     rep.ob("N2-ref-count", rsub, "count += 1 per subscription", len(inc) == 1, "the subscriber counter is not incremented exactly once per subscription")
-    conn = [s for s in sites(rsub) if isinstance(s.node, ast.Call) and dotted(s.node.func) == "source.connect"]
+    conn = [s for s in sites(rsub) if method_call(s.node, srcs, "connect")]
     rep.ob("N2-ref-count", rsub, "a connect call exists on the subscribe path", bool(conn), "ref_count never connects")
-    own = [s for s in sites(rsub) if isinstance(s.node, ast.Assign) and isinstance(s.node.value, ast.Call) and dotted(s.node.value.func) == "source.subscribe"
-           and u(s.node.value.args[0]) == rsub.params[0]]
+    conn_vars = {cell_name(s.stmt.targets[0]) for s in conn if isinstance(s.stmt, ast.Assign)}
+    own = [s for s in sites(rsub) if isinstance(s.node, ast.Assign) and method_call(s.node.value, srcs, "subscribe")
+           and u(s.node.value.args[0]) == rsub.params[0] and isinstance(s.node.targets[0], ast.Name)]
     rep.ob("N2-ref-count", rsub, "the subscriber is subscribed to the connectable", bool(own), "the subscriber is not subscribed to the shared source")
-    dec = [s for s in sites(rdis) if isinstance(s.node, ast.AugAssign) and u(s.node.target) == "count" and isinstance(s.node.op, ast.Sub) and not s.ctx.branch]
-    dcon = [s for s in sites(rdis) if isinstance(s.node, ast.Call) and dotted(s.node.func) == "connectable_subscription.dispose"]
-    ok = len(dec) == 1 and len(dcon) == 1 and dominates(dec[0], dcon[0]) and (has_guard(dcon[0].ctx, "count", False) or
-                                                                             any(u(e) in ("count == 0", "0 == count", "count <= 0") and p for e, p in dcon[0].ctx.guards))
+    own_vars = {s.node.targets[0].id for s in own}
+    dec = [s for s in sites(rdis) if isinstance(s.node, ast.AugAssign) and cell_name(s.node.target) == cnt and isinstance(s.node.op, ast.Sub) and not s.ctx.branch]
+    dcon = [s for s in sites(rdis) if isinstance(s.node, ast.Call) and isinstance(s.node.func, ast.Attribute) and s.node.func.attr == "dispose"
+            and cell_name(s.node.func.value) in conn_vars]
+    def zero(e, p_):
+        if cell_name(e) == cnt and isinstance(e, (ast.Name, ast.Subscript)):
+            return not p_
+        if isinstance(e, ast.Compare) and len(e.ops) == 1:
+            l, r = e.left, e.comparators[0]
+            if isinstance(l, ast.Constant):
+                l, r = r, l
+            if cell_name(l) == cnt and isinstance(r, ast.Constant) and r.value == 0:
+                return (p_ and isinstance(e.ops[0], (ast.Eq, ast.LtE))) or ((not p_) and isinstance(e.ops[0], (ast.NotEq, ast.Gt)))
+        return False
+    ok = len(dec) == 1 and len(dcon) == 1 and dominates(dec[0], dcon[0]) and any(zero(e, p_) for e, p_ in dcon[0].ctx.guards)
     rep.ob("N2-ref-count", rdis, "disconnect only when the decremented counter is zero", ok,
            "the connection is disposed while other subscribers remain (or never): ref_count disconnects at the wrong time")
-    dsub = [s for s in sites(rdis) if isinstance(s.node, ast.Call) and dotted(s.node.func) == "subscription.dispose" and not s.ctx.branch]
+    dsub = [s for s in sites(rdis) if isinstance(s.node, ast.Call) and isinstance(s.node.func, ast.Attribute) and s.node.func.attr == "dispose"
+            and dotted(s.node.func.value) in own_vars and not s.ctx.branch]
     rep.ob("N2-ref-count", rdis, "the subscriber's own subscription is disposed", bool(dsub), "unsubscribing does not detach the subscriber from the subject")
     rep.ob("N2-ref-count", rsub, "returns Disposable(dispose)", any(isinstance(s.node, ast.Return) and u(s.node.value) == "Disposable(dispose)" for s in sites(rsub)),
            "the per-subscriber disposable is not returned")
     # auto_connect
     ac = repo.fn(CO, "ConnectableObservable.auto_connect")
     asub = repo.fn(CO, "ConnectableObservable.auto_connect.subscribe")
-    imm = [s for s in sites(ac) if isinstance(s.node, ast.Call) and dotted(s.node.func) == "source.connect"]
+    selfs = {"self"} | {t.id for s in sites(ac) if isinstance(s.node, ast.Assign) and u(s.node.value) == "self" for t in s.node.targets if isinstance(t, ast.Name)}
+    imm = [s for s in sites(ac) if method_call(s.node, selfs, "connect")]
     ok = bool(imm) and any(u(e) in (f"{ac.params[1]} == 0", f"0 == {ac.params[1]}") and p for e, p in imm[0].ctx.guards)
     rep.ob("N3-auto-connect", ac, "subscriber_count == 0 connects at build time", ok, "auto_connect(0) does not connect immediately")
-    c2 = [s for s in sites(asub) if isinstance(s.node, ast.Call) and dotted(s.node.func) == "source.connect"]
-    inc2 = [s for s in sites(asub) if isinstance(s.node, ast.AugAssign) and "count" in u(s.node.target) and isinstance(s.node.op, ast.Add)]
+    c2 = [s for s in sites(asub) if method_call(s.node, selfs, "connect")]
+    cnts2 = names_augmented(asub, ast.Add)
+    inc2 = [s for s in sites(asub) if isinstance(s.node, ast.AugAssign) and isinstance(s.node.op, ast.Add)]
+    def eq_n(e):
+        for x in ast.walk(e):
+            if isinstance(x, ast.Compare) and len(x.ops) == 1 and isinstance(x.ops[0], ast.Eq):
+                a_, b_ = x.left, x.comparators[0]
+                if (cell_name(a_) in cnts2 and u(b_) == ac.params[1]) or (cell_name(b_) in cnts2 and u(a_) == ac.params[1]):
+                    return True
+        return False
     ok = False
     if c2 and inc2:
         for e, p in c2[0].ctx.guards:
             if p and isinstance(e, ast.Name):
                 defs = [d for d in sites(asub) if isinstance(d.node, ast.Assign) and u(d.node.targets[0]) == e.id]
-                if defs and f"== {ac.params[1]}" in u(defs[0].node.value) and "count" in u(defs[0].node.value) and inc2[0].index < defs[0].index:
+                if defs and eq_n(defs[0].node.value) and inc2[0].index < defs[0].index:
                     ok = True
-            if p and isinstance(e, ast.Compare) and ac.params[1] in u(e) and "count" in u(e) and inc2[0].index < c2[0].index:
+            if p and isinstance(e, ast.Compare) and eq_n(e) and inc2[0].index < c2[0].index:
                 ok = True
     rep.ob("N3-auto-connect", asub, "connect when the incremented counter equals subscriber_count", ok,
            "auto_connect does not connect exactly when the n-th subscriber arrives")
     rep.ob("N3-auto-connect", asub, "the subscriber is subscribed to the connectable", any(
-        isinstance(s.node, ast.Assign) and u(s.node.value).startswith("source.subscribe(") for s in sites(asub)), "auto_connect does not subscribe its subscribers")
+        isinstance(s.node, ast.Assign) and method_call(s.node.value, selfs, "subscribe") and u(s.node.value.args[0]) == asub.params[0] for s in sites(asub)),
+        "auto_connect does not subscribe its subscribers")
     # delegations
     def ctor_of(fn, e, depth=3):
         """constructor name a (possibly aliased) expression denotes"""
